@@ -180,9 +180,15 @@ template <class Aut> static hist::StepResult run(const std::vector<int>& h, Ctx&
   R.key = keyOf(s); if (h.empty()) R.prefixKey = ""; { std::set<const void*> seen; for (int i = 0; i < S; i++) if (s[i].a && !seen.insert(tablePtr(*s[i].a)).second) R.sharing = true; }
   return R;
 }
-template <class Aut> static void body(Env& env, const std::string& stage, int depth, uint64_t budget) {
+static int findOp(K kind, int i, int j, int k, int m) { for (size_t x = 0; x < menu().size(); x++) { const Op& o = menu()[x]; if (o.kind == kind && o.i == i && o.j == j && o.k == k && o.m == m) return (int)x; } abort(); }
+// `seeded`: start the search from a non-initial state in which two handles share one transition table
+//   1: s0=load(M0); s1=copy(s0)      2: s0=load(M3); s1=copy(s0); s2=load(M1)
+template <class Aut> static void body(Env& env, const std::string& stage, int depth, uint64_t budget, int seeded = 0) {
   hist::Spec sp; sp.stage = stage; sp.menuSize = (int)menu().size(); sp.maxDepth = depth; sp.stateBudget = budget; sp.caseTimeout = 60; bool verbose = !env.replayArg.empty();
-  sp.run = [verbose](const std::vector<int>& h, Ctx& c) { return run<Aut>(h, c, verbose); }; sp.describe = describe; hist::bfs(env, sp);
+  std::vector<int> prefix; if (seeded == 1) prefix = {findOp(LOAD, 0, 0, 0, 0), findOp(COPY, 0, 1, 0, 0)}; if (seeded == 2) prefix = {findOp(LOAD, 0, 0, 0, 3), findOp(COPY, 0, 1, 0, 0), findOp(LOAD, 2, 0, 0, 1)};
+  sp.run = [verbose, prefix](const std::vector<int>& h, Ctx& c) { std::vector<int> full = prefix; full.insert(full.end(), h.begin(), h.end()); hist::StepResult r = run<Aut>(full, c, verbose); if (h.empty()) r.prefixKey = ""; return r; };
+  sp.describe = [prefix](const std::vector<int>& h) { std::vector<int> full = prefix; full.insert(full.end(), h.begin(), h.end()); return (prefix.empty() ? "" : "[from the seeded state] ") + describe(full); };
+  hist::bfs(env, sp);
 }
 static Register h1("c08.hist.bu.d3", "C08", "bdd-bu, 3 slots, BFS depth 3 over load(4 fixed automata)/load-into/copy/assign/destroy/Union/UnionDisjointStates/Intersection/trimming/GetTopDownAut", [](Env& e) { body<BDDBottomUpTreeAut>(e, "c08.hist.bu.d3", 3, 2000000); });
 static Register h2("c08.hist.bu.d4", "C08", "bdd-bu, BFS depth 4", [](Env& e) { body<BDDBottomUpTreeAut>(e, "c08.hist.bu.d4", 4, 2000000); });
@@ -190,4 +196,12 @@ static Register h3("c08.hist.bu.d5", "C08", "bdd-bu, BFS depth 5", [](Env& e) { 
 static Register h4("c08.hist.td.d3", "C08", "bdd-td, 3 slots, BFS depth 3", [](Env& e) { body<BDDTopDownTreeAut>(e, "c08.hist.td.d3", 3, 2000000); });
 static Register h5("c08.hist.td.d4", "C08", "bdd-td, BFS depth 4", [](Env& e) { body<BDDTopDownTreeAut>(e, "c08.hist.td.d4", 4, 2000000); });
 static Register h6("c08.hist.td.d5", "C08", "bdd-td, BFS depth 5", [](Env& e) { body<BDDTopDownTreeAut>(e, "c08.hist.td.d5", 5, 3000000); });
+static Register h7("c08.hist.bu.seeded1.d3", "C08", "bdd-bu, BFS depth 3 from the non-initial state s0=load(M0); s1=copy(s0) (two handles sharing one table)", [](Env& e) { body<BDDBottomUpTreeAut>(e, "c08.hist.bu.seeded1.d3", 3, 3000000, 1); });
+static Register h8("c08.hist.bu.seeded2.d3", "C08", "bdd-bu, BFS depth 3 from the non-initial state s0=load(M3); s1=copy(s0); s2=load(M1)", [](Env& e) { body<BDDBottomUpTreeAut>(e, "c08.hist.bu.seeded2.d3", 3, 3000000, 2); });
+static Register h9("c08.hist.td.seeded1.d3", "C08", "bdd-td, BFS depth 3 from s0=load(M0); s1=copy(s0)", [](Env& e) { body<BDDTopDownTreeAut>(e, "c08.hist.td.seeded1.d3", 3, 3000000, 1); });
+static Register h10("c08.hist.td.seeded2.d3", "C08", "bdd-td, BFS depth 3 from s0=load(M3); s1=copy(s0); s2=load(M1)", [](Env& e) { body<BDDTopDownTreeAut>(e, "c08.hist.td.seeded2.d3", 3, 3000000, 2); });
+static Register h11("c08.hist.bu.seeded1.d4", "C08", "bdd-bu, BFS depth 4 from s0=load(M0); s1=copy(s0)", [](Env& e) { body<BDDBottomUpTreeAut>(e, "c08.hist.bu.seeded1.d4", 4, 4000000, 1); });
+static Register h12("c08.hist.bu.seeded2.d4", "C08", "bdd-bu, BFS depth 4 from s0=load(M3); s1=copy(s0); s2=load(M1)", [](Env& e) { body<BDDBottomUpTreeAut>(e, "c08.hist.bu.seeded2.d4", 4, 4000000, 2); });
+static Register h13("c08.hist.td.seeded1.d4", "C08", "bdd-td, BFS depth 4 from s0=load(M0); s1=copy(s0)", [](Env& e) { body<BDDTopDownTreeAut>(e, "c08.hist.td.seeded1.d4", 4, 4000000, 1); });
+static Register h14("c08.hist.td.seeded2.d4", "C08", "bdd-td, BFS depth 4 from s0=load(M3); s1=copy(s0); s2=load(M1)", [](Env& e) { body<BDDTopDownTreeAut>(e, "c08.hist.td.seeded2.d4", 4, 4000000, 2); });
 }  // namespace c08h
